@@ -502,6 +502,20 @@ func MapOrder[M ~map[K]V, K cmp.Ordered, V any](m M) []K {
 	return keys
 }
 
+// RequestEnd asks the scheduler to end the run at the caller's next scheduling point
+// (used by the harness once a verdict is already decided, e.g. demand far beyond its bound).
+//
+//go:norace
+func RequestEnd(reason string) {
+	if !active || sch == nil {
+		return
+	}
+	if sch.endRequested == "" {
+		sch.endRequested = reason
+	}
+	quantum = 0
+}
+
 // Current returns the baton holder (nil when the simulator is off).
 //
 //go:norace
